@@ -6,7 +6,9 @@
 (*     MaxList entries) on ns = 1..MaxNS, bin and cbin (chunks of K in Ks),  *)
 (*     against a pool of column selectors on a permuted 2+1 channel file;   *)
 (*  mode "cols": every column selector on 1..MaxND data channels + nsync    *)
-(*     sync channels, every permutation of the data channels as order,      *)
+(*     in 0..MaxSync sync channels (0: a recording saved without its sync   *)
+(*     channel; 2: a nidq file with two digital words; at most MaxND + 1    *)
+(*     columns in all), every permutation of the data channels as order,    *)
 (*     against a pool of sample selectors;                                   *)
 (* implementation layer Read/GetItem = property layer RefRead, cell by cell.*)
 (* Variant "orig" (tree before the negative-step fix) must fail ReadOK on   *)
@@ -14,7 +16,7 @@
 (***************************************************************************)
 EXTENDS ReaderIndex, FiniteSets, TLC, Json, IOUtils, SequencesExt
 
-CONSTANTS MaxNS, MaxND, MaxList, Ks, Variant, Modes
+CONSTANTS MaxNS, MaxND, MaxList, MaxSync, Ks, Variant, Modes
 
 VARIABLES mode, api, fmt, K, ns, nsync, order, nsel, csel, pc, res
 vars == <<mode, api, fmt, K, ns, nsync, order, nsel, csel, pc, res>>
@@ -44,7 +46,8 @@ InitRows == /\ mode = "rows" /\ ns \in 1..MaxNS /\ nsel \in Selectors(ns)
             /\ api \in {"read"} \cup (IF csel = AllCols /\ nsel.k # "list" THEN {"getitem1"} ELSE {})
 InitCols == /\ mode = "cols" /\ ns = 3 /\ nsel \in RowPool
             /\ fmt \in {"bin", "cbin"} /\ Supported(fmt, nsel) /\ K = (IF fmt = "cbin" THEN 2 ELSE 0)
-            /\ nsync \in 0..1 /\ \E nd \in 1..MaxND : order \in {WithSync(p, nsync) : p \in Perms(nd)}
+            /\ nsync \in 0..MaxSync
+            /\ \E nd \in 1..MaxND : nd + nsync <= MaxND + 1 /\ order \in {WithSync(p, nsync) : p \in Perms(nd)}
             /\ csel \in Selectors(Len(order)) /\ api = "getitem2"
 Init == /\ mode \in Modes /\ (InitRows \/ InitCols) /\ pc = "open" /\ res = <<>>
 
